@@ -1,21 +1,17 @@
 (* Entry point of the extracted model: run_case prop case = observation. *)
 From Coq Require Import ZArith List.
-Require Import Base.Tok Gen.Consts Gen.CrcTable Gen.Preds.
+Require Import Base.Tok.
+Require Import Extract.RunC01 Extract.RunC02 Extract.RunC03 Extract.RunC04 Extract.RunC05 Extract.RunC06 Extract.RunC07
+  Extract.RunC08 Extract.RunC09 Extract.RunC10 Extract.RunC11 Extract.RunC12 Extract.RunC13 Extract.RunC14 Extract.RunC15
+  Extract.RunC16 Extract.RunC17 Extract.RunC18 Extract.RunC19 Extract.RunC20.
 Import ListNotations.
 Open Scope Z_scope.
 
-(* C10 cases: (1 crc bytes) update; (2 bytes) compute; (3 i) table entry; (4 crc a b) split *)
-Definition run_C10 (t : tok) : tok :=
-  match tI (tnth 0 t) with
-  | 1 => TI (updateCRC32 (tI (tnth 1 t)) (tB (tnth 2 t)))
-  | 2 => TI (computeCRC32 (tB (tnth 1 t)))
-  | 3 => TI (nth (Z.to_nat (tI (tnth 1 t))) tableCRC32 0)
-  | 4 => TI (updateCRC32 (updateCRC32 (tI (tnth 1 t)) (tB (tnth 2 t))) (tB (tnth 3 t)))
-  | _ => TL []
-  end.
-
 Definition run_case (prop : Z) (t : tok) : tok :=
   match prop with
-  | 10 => run_C10 t
+  | 1 => run_C01 t | 2 => run_C02 t | 3 => run_C03 t | 4 => run_C04 t | 5 => run_C05 t
+  | 6 => run_C06 t | 7 => run_C07 t | 8 => run_C08 t | 9 => run_C09 t | 10 => run_C10 t
+  | 11 => run_C11 t | 12 => run_C12 t | 13 => run_C13 t | 14 => run_C14 t | 15 => run_C15 t
+  | 16 => run_C16 t | 17 => run_C17 t | 18 => run_C18 t | 19 => run_C19 t | 20 => run_C20 t
   | _ => TL []
   end.
